@@ -113,7 +113,7 @@ def run(ctx: Ctx):
     import scico.numpy as snp
     from scico import linop
     # ---- (a) expression trees
-    ntree = ctx.n(150, 4000)
+    ntree = ctx.n(90, 4000)
     cases, metas = [], []
     for t in range(ntree):
         key, pool, build = gen_tree_case(ctx, ctx.rng.choice([1, 2, 2, 3, 4] if not ctx.quick else [1, 2, 2, 3]))
@@ -153,7 +153,7 @@ def run(ctx: Ctx):
             for a in names:
                 for op in ("scale", "rscale", "div", "neg"):
                     for c in ([2.0, -0.5] + ([1.0 + 2.0j, -0.5j] if L.is_complex(dt) else [])):
-                        if ctx.quick and ctx.rng.random() < 0.5:
+                        if ctx.quick and ctx.rng.random() < 0.6:
                             continue
                         tseed = ctx.rng.getrandbits(32)
                         desc = ["neg", ["leaf", a]] if op == "neg" else [op, str(c), ["leaf", a]]
